@@ -171,6 +171,16 @@ def build_codec(pool='a'):
     return [bins[u[0]] for u in units]
 
 
+def build_pair(pool='x'):
+    header = os.path.join(HARNESS, 'pools', 'pool_%s.h' % pool)
+    units = [('pair_%s_s%d' % (pool, k),
+              ['-DPOOL_HEADER="pools/pool_%s.h"' % pool, '-DPOOL_NS=pool_%s' % pool, '-DNSHARD=%d' % NSHARD, '-DSHARD=%d' % k])
+             for k in range(NSHARD)]
+    bins = build_binaries('pair_' + pool, [os.path.join(HARNESS, 'pair_main.cpp')], units,
+                          extra_inputs=[header, os.path.join(HARNESS, 'codec_main.cpp')])
+    return [bins[u[0]] for u in units]
+
+
 def build_util():
     units = [('util', [])]
     flags = SAN_FLAGS + ['-fno-sanitize=shift-base']
